@@ -647,7 +647,7 @@ def kernel_drive(ctx, watch):
              lambda: CouplingAnalysis(cdata, silence_level=3).mutual_information(
                  tau_max=1, estimator="knn", knn=3)),
             ("Surrogates.twin_surrogates",
-             lambda: Surrogates(od, silence_level=3).twin_surrogates(1, 2, 1, 0.4, min_dist=2)),
+             lambda: Surrogates(od, silence_level=3).twin_surrogates(2, 1, 0.4, min_dist=2)),
             ("Surrogates.test_pearson_correlation", lambda: (lambda s: s.test_pearson_correlation(
                 s.original_data, s.white_noise_surrogates()))(Surrogates(od, silence_level=3))),
             ("Surrogates.test_mutual_information", lambda: (lambda s: s.test_mutual_information(
